@@ -115,7 +115,7 @@ def session(part, rng, srv_holder, variant, known, nreq):
     log = {"text": text, "uri": uri, "changes": []}
     srv = srv_holder[0]
     if srv is None or not srv.alive():
-        srv = srv_holder[0] = Server(server_bin(variant), env={"RUST_BACKTRACE": "0"})
+        srv = srv_holder[0] = Server(server_bin(variant), env={"RUST_BACKTRACE": "0", "ASAN_OPTIONS": "halt_on_error=1:abort_on_error=0:detect_leaks=1:exitcode=77"})
     pending = []
     def flush():
         """read the responses of all pending requests: exactly one each, in request order, well-formed"""
@@ -235,10 +235,14 @@ def run(ctx):
     server_bin("rel"); adaptor_bin()
     known = [f for f in ctx.open_findings() if f.get("kind") == "crash"]
     ns, nreq = (14, 160) if ctx.quick else (700, 180)
-    variants = ["rel"] if ctx.quick else ["rel", "chk"]
+    variants = ["rel"] if ctx.quick else ["rel", "chk", "asan"]
     for v in variants:
         server_bin(v)
-        for p in pmap(worker_lsp, [("%s/%s/%d" % (ctx.seed, v, i), ns, nreq, v, known) for i in range(NCPU)]): ctx.merge(p)
+        n_v = ns if v != "asan" else max(10, ns // 5)
+        before = ctx.evaluations
+        for p in pmap(worker_lsp, [("%s/%s/%d" % (ctx.seed, v, i), n_v, nreq, v, known) for i in range(NCPU)]): ctx.merge(p)
+        ctx.extra.setdefault("requests_per_build", {})[v] = ctx.evaluations - before
+    if "asan" in variants: ctx.extra["sanitizer"] = "AddressSanitizer+LeakSanitizer build (nightly -Zsanitizer=address): a report aborts the server (exit 77) and is a violation; reports seen = the violations naming AddressSanitizer (0 if none)"
     nl = 1200 if ctx.quick else 60000
     for p in pmap(worker_lib, [("%s/%d" % (ctx.seed, i), nl, known) for i in range(NCPU)]): ctx.merge(p)
     ctx.extra["server_builds"] = variants
